@@ -176,8 +176,8 @@ theorem construct_ok_fresh {cfg : Cfg} {s s' : State} {k : Uri} {f : FileRef} {t
   have hcc := construct_cases cfg s k f
   rw [hc] at hcc
   cases hcc with
-  | regen file hf hb hr => exact ⟨file, hf, h.mtime_le _ _ hf, rfl, rfl⟩
-  | reuse file m hf hmd hm hle hsrc => exact ⟨file, hf, hle, rfl, rfl⟩
+  | regen file hf hb hl hr => exact ⟨file, hf, h.mtime_le _ _ hf, rfl, rfl⟩
+  | reuse file m hf hmd hm hle hml hsrc => exact ⟨file, hf, hle, rfl, rfl⟩
 
 /-- the entry under `u` would pass `_check`: a `get_template(u)` returns it as it is -/
 def Served (cfg : Cfg) (s : State) (u : Uri) (t : Tmpl) : Prop :=
@@ -371,6 +371,7 @@ theorem served_quiet_step {cfg : Cfg} {s : State} {u : Uri} {t : Tmpl} (h : Serv
   | writeFile d v c => simp [quietOp] at hq
   | deleteFile d v => simp [quietOp] at hq
   | breakFile d v => simp [quietOp] at hq
+  | breakFileLate d v => simp [quietOp] at hq
   | putString v c => simp [quietOp] at hq
   | putTemplate v i => simp [quietOp] at hq
 
@@ -411,6 +412,7 @@ theorem pinned_step {cfg : Cfg} {s : State} {u : Uri} {t : Tmpl} (h : Pinned cfg
   | writeFile d v c => exact h
   | deleteFile d v => exact h
   | breakFile d v => exact h
+  | breakFileLate d v => exact h
   | getTemplate v => rw [step_get_state]; exact hget v
   | hasTemplate v => rw [step_has_state]; exact hget v
   | putString v c =>
